@@ -34,11 +34,14 @@ CONSTANTS NPeers,        \* peers 1..NPeers, peer 1 is honest
           InitLens,      \* initial lengths of the honest chain
           LongSet,       \* subset of {0, 1}
           MaxEv,         \* Drop/Extend/Reorg events per history
+          MaxHs,         \* connection attempts that fail inside (or right after) the handshake, per history
+          InvSplit,      \* the announcements of a new block may reach the client one follower at a time (Extend(n, q), Inv)
           MaxH,          \* bound on chain heights
           CPI,           \* filter checkpoint interval in model units
           FixCFStall,    \* a peer whose checkpoints contradict its own cfheaders is banned (no endless retry)
           FixCFPanic,    \* a checkpointed batch invalidated by a reorg is abandoned (no panic)
           FixFHReverify, \* false filter headers taken from a lone liar are rolled back once an honest peer contradicts them
+          FixLastRequested, \* an announced block nobody delivered is requested again from a later announcer
           FixStaleSyncPeer \* a connected peer with more work is asked for headers even if it connected while the client was syncing from a shorter peer
 
 VARIABLES br, hb, long,          \* universe: branch table, honest branch, long-chain mode
@@ -50,12 +53,15 @@ VARIABLES br, hb, long,          \* universe: branch table, honest branch, long-
           cfq,                   \* in-flight checkpointed batch: <<branch, height>> of the header tip it was built for
           dead,                  \* the client process crashed
           sp, ask,               \* sync peer (0 = none); peers the client has sent a getheaders to besides the sync peer
-          nev, phase,
+          pend,                  \* followers whose inv for the current honest tip is still on its way (environment)
+          req,                   \* peer that was sent the getheaders for the announced tip (blockManager.lastRequested), 0 = none
+          nev, nhs, phase,
           abs, act, viol
 
 evars == <<br, hb, long, kind, lk, pv, ps, bn>>
 cvars == <<hdrb, hdrh, flt, ffalse, cfq, dead, sp, ask>>
-vars  == <<evars, cvars, nev, phase, abs, act, viol>>
+ivars == <<pend, req>>
+vars  == <<evars, cvars, ivars, nev, nhs, phase, abs, act, viol>>
 
 Peers == 1..NPeers
 NoQ   == <<0, 0>>
@@ -141,9 +147,10 @@ Obs ==
 
 State == [br |-> br, hb |-> hb, long |-> long, kind |-> kind, lk |-> lk, pv |-> pv, ps |-> ps,
           bn |-> bn, hdrb |-> hdrb, hdrh |-> hdrh, flt |-> flt, ffalse |-> ffalse, cfq |-> cfq,
-          dead |-> dead, sp |-> sp, ask |-> ask, nev |-> nev, phase |-> phase]
+          dead |-> dead, sp |-> sp, ask |-> ask, pend |-> pend, req |-> req, nev |-> nev, nhs |-> nhs,
+          phase |-> phase]
 
-View == <<evars, cvars, nev, phase, abs>>
+View == <<evars, cvars, ivars, nev, nhs, phase, abs>>
 
 Finish(a) ==
   /\ act' = a
@@ -184,8 +191,8 @@ Init ==
   /\ hb = 1
   /\ ps = [p \in Peers |-> "new"] /\ bn = [p \in Peers |-> FALSE]
   /\ hdrb = 1 /\ hdrh = 0 /\ flt = 0 /\ ffalse = 0 /\ cfq = NoQ /\ dead = FALSE
-  /\ sp = 0 /\ ask = {}
-  /\ nev = 0 /\ phase = "run"
+  /\ sp = 0 /\ ask = {} /\ pend = {} /\ req = 0
+  /\ nev = 0 /\ nhs = 0 /\ phase = "run"
   /\ abs = AbsInit /\ act = Act("Init", "ok", 0, 0, 0) /\ viol = {}
 
 ----------------------------------------------------------------------------
@@ -197,8 +204,34 @@ Up(p) ==
   /\ phase = "run" /\ ps[p] = "new"
   /\ ps' = [ps EXCEPT ![p] = "up"]
   /\ LET r == NewPeerSP(p, ps') IN sp' = r[1] /\ ask' = r[2]
-  /\ UNCHANGED <<br, hb, long, kind, lk, pv, bn, hdrb, hdrh, flt, ffalse, cfq, dead, nev, phase>>
+  /\ UNCHANGED <<br, hb, long, kind, lk, pv, bn, hdrb, hdrh, flt, ffalse, cfq, dead, ivars, nev, nhs, phase>>
   /\ Finish(Act("Up", "ok", p, 0, 0))
+
+\* A connection attempt of the client to node p that FAILS at handshake stage st; the node serves later attempts
+\* normally (the client's connection manager has to dial again: Reconnect).  Stages (netsim FailNext):
+\*   1 the dial is refused                                  connmgr handleFailedConn, no peer object
+\*   2 accepted, closed after the client's version          peer.start fails / negotiation ends; ChainService.
+\*   3 the node's version arrives, closed before its verack   handleDonePeerMsg gets a peer that was never added
+\*                                                            (neutrino.go:1482 list[sp.ID()] absent) and must still
+\*                                                            give the request back: connManager.Disconnect (persistent
+\*                                                            peer: redial) / Remove + NewConnReq
+\*   4 version and verack arrive, closed right after         OnVerAck -> AddPeer -> handleAddPeerMsg + blockManager
+\*                                                            NewPeer, then DonePeer: the sync-peer bookkeeping sees a
+\*                                                            peer come and go
+\* From "new" this is also the moment the node starts accepting (obs.up = 1); from "down" it is a failed redial.
+HsFail(p, st) ==
+  /\ phase = "run" /\ ps[p] \in {"new", "down"} /\ ~bn[p] /\ nhs < MaxHs
+  /\ ps' = [ps EXCEPT ![p] = "down"]
+  /\ nhs' = nhs + 1
+  /\ IF st = 4
+     THEN LET up1 == [ps EXCEPT ![p] = "up"]
+              r1  == NewPeerSP(p, up1)
+              \* DonePeerSP on the bookkeeping NewPeerSP left
+              s2  == IF r1[1] = p THEN BestCand(ps') ELSE r1[1]
+          IN  sp' = s2 /\ ask' = r1[2] \ {p}
+     ELSE UNCHANGED <<sp, ask>>
+  /\ UNCHANGED <<br, hb, long, kind, lk, pv, bn, hdrb, hdrh, flt, ffalse, cfq, dead, ivars, nev, phase>>
+  /\ Finish(Act("HsFail", "ok", p, st, 0))
 
 \* node p closes the connection (it keeps accepting: the client redials)
 Drop(p) ==
@@ -206,20 +239,50 @@ Drop(p) ==
   /\ ps' = [ps EXCEPT ![p] = "down"]
   /\ nev' = nev + 1
   /\ LET r == DonePeerSP(p, ps') IN sp' = r[1] /\ ask' = r[2]
-  /\ UNCHANGED <<br, hb, long, kind, lk, pv, bn, hdrb, hdrh, flt, ffalse, cfq, dead, phase>>
+  /\ pend' = pend \ {p}
+  /\ UNCHANGED <<br, hb, long, kind, lk, pv, bn, hdrb, hdrh, flt, ffalse, cfq, dead, req, nhs, phase>>
   /\ Finish(Act("Drop", "ok", p, 0, 0))
 
 \* followers of the honest chain announce a new tip by inv; the client asks
 \* the announcer for headers if it is the sync peer or the client is current
 Announce == {p \in Peers : pv[p] = 0 /\ ps[p] = "up" /\ HdrServer(kind[p]) /\ (p = sp \/ Cur)}
 
-Extend(n) ==
+\* Extend(n, 0): every connected follower announces at once (netsim: in index order; the model lets every
+\* announcer be asked - the code asks the first one only, known finding KF-CL-6).
+\* Extend(n, q), q # 0: the announcement of follower q reaches the client FIRST, those of the other followers are
+\* still on their way (pend; delivered by Inv).  handleInvMsg blockmanager.go:2621: q is sent a getheaders iff it is
+\* the sync peer or the client is current (:2644, :2666) and the hash is remembered (:2698 lastRequested = req).
+Followers == {p \in Peers : pv[p] = 0 /\ ps[p] = "up" /\ HdrServer(kind[p])}
+
+Extend(n, q) ==
   /\ phase = "run" /\ nev < MaxEv /\ br[hb].tip + n <= MaxH
   /\ br' = [br EXCEPT ![hb].tip = @ + n]
   /\ nev' = nev + 1
-  /\ ask' = ask \cup Announce
-  /\ UNCHANGED <<hb, long, kind, lk, pv, ps, bn, hdrb, hdrh, flt, ffalse, cfq, dead, sp, phase>>
-  /\ Finish(Act("Extend", "ok", 0, n, 0))
+  /\ IF q = 0
+     THEN ask' = ask \cup Announce /\ pend' = {} /\ req' = 0
+     ELSE /\ InvSplit /\ q \in Followers
+          /\ pend' = Followers \ {q}
+          /\ IF q \in Announce THEN ask' = ask \cup {q} /\ req' = q
+                                ELSE ask' = ask /\ req' = 0
+  /\ UNCHANGED <<hb, long, kind, lk, pv, ps, bn, hdrb, hdrh, flt, ffalse, cfq, dead, sp, nhs, phase>>
+  /\ Finish(Act("Extend", "ok", q, n, 0))
+
+\* the client's header tip is the current honest tip
+AtHonestTip == hdrh = br[hb].tip /\ hdrb = OwnerAt(br, hb, hdrh)
+
+\* the inv of follower p for the current honest tip arrives.  Code as it is (FixLastRequested = FALSE): a hash
+\* that was already requested from somebody (lastRequested) is not requested again, whether or not that peer
+\* is still there; otherwise p is asked iff it is the sync peer or there is none (the sync peer's recorded
+\* height is only raised when the announced block is already known, so "current" w.r.t. a follower sync peer
+\* means: p = sp here).
+Inv(p) ==
+  /\ phase \in {"run", "settle"} /\ p \in pend
+  /\ pend' = pend \ {p}
+  /\ IF ps[p] = "up" /\ ~AtHonestTip /\ (p = sp \/ sp = 0 \/ FixLastRequested) /\ (req = 0 \/ FixLastRequested)
+     THEN ask' = ask \cup {p} /\ req' = p
+     ELSE UNCHANGED <<ask, req>>
+  /\ UNCHANGED <<evars, hdrb, hdrh, flt, ffalse, cfq, dead, sp, nev, nhs, phase>>
+  /\ Finish(Act("Inv", "ok", p, 0, 0))
 
 \* the honest chain drops d blocks and gets d+1 new ones (strictly more work)
 Reorg(d) ==
@@ -228,15 +291,15 @@ Reorg(d) ==
   /\ br' = Append(br, [par |-> hb, fork |-> br[hb].tip - d, tip |-> br[hb].tip + 1, bad |-> 0])
   /\ hb' = Len(br) + 1
   /\ nev' = nev + 1
-  /\ ask' = ask \cup Announce
-  /\ UNCHANGED <<long, kind, lk, pv, ps, bn, hdrb, hdrh, flt, ffalse, cfq, dead, sp, phase>>
+  /\ ask' = ask \cup Announce /\ pend' = {} /\ req' = 0
+  /\ UNCHANGED <<long, kind, lk, pv, ps, bn, hdrb, hdrh, flt, ffalse, cfq, dead, sp, nhs, phase>>
   /\ Finish(Act("Reorg", "ok", 0, d + 1, d))
 
 \* no further environment events
 Settle ==
   /\ phase = "run" /\ ps[1] # "new"
   /\ phase' = "settle"
-  /\ UNCHANGED <<evars, cvars, nev>>
+  /\ UNCHANGED <<evars, cvars, ivars, nev, nhs>>
   /\ Finish(Act("Settle", "ok", 0, 0, 0))
 
 ----------------------------------------------------------------------------
@@ -266,7 +329,7 @@ SyncHdr(p) ==
          \* a reorganisation makes the sender the sync peer, sync candidate or not
          /\ sp' = IF f < hdrh \/ (sp = 0 /\ Candidate(kind[p])) THEN p ELSE sp
   /\ ask' = ask \ {p}
-  /\ UNCHANGED <<evars, cfq, dead, nev, phase>>
+  /\ UNCHANGED <<evars, cfq, dead, ivars, nev, nhs, phase>>
   /\ Finish(Act("SyncHdr", "ok", p, 0, 0))
 
 \* A peer that serves an invalid header: the headers before it are taken (if
@@ -294,7 +357,7 @@ Kick(p) ==
                ELSE CHOOSE q \in c : \A r \in c : PTip(r) < PTip(q) \/ (PTip(r) = PTip(q) /\ r >= q)
      IN  /\ sp' = IF sp = p THEN bc ELSE sp
          /\ ask' = ask \ {p}
-  /\ UNCHANGED <<br, hb, long, kind, lk, pv, bn, cfq, dead, nev, phase>>
+  /\ UNCHANGED <<br, hb, long, kind, lk, pv, bn, cfq, dead, ivars, nev, nhs, phase>>
   /\ Finish(Act("Kick", "ok", p, 0, 0))
 
 \* what committing the filter headers of heights flt+1..to leaves in ffalse:
@@ -314,7 +377,7 @@ CanFltBegin ==
 FltBegin ==
   /\ CanFltBegin
   /\ cfq' = <<hdrb, hdrh>>
-  /\ UNCHANGED <<evars, hdrb, hdrh, flt, ffalse, dead, sp, ask, nev, phase>>
+  /\ UNCHANGED <<evars, hdrb, hdrh, flt, ffalse, dead, sp, ask, ivars, nev, nhs, phase>>
   /\ Finish(Act("FltBegin", "ok", 0, 0, 0))
 
 \* the answers arrive.  If a reorganisation removed a block the batch ends
@@ -330,7 +393,7 @@ FltEnd ==
               /\ ffalse' \in NewFalse(Max(flt, cp))
               /\ UNCHANGED dead
   /\ cfq' = NoQ
-  /\ UNCHANGED <<evars, hdrb, hdrh, sp, ask, nev, phase>>
+  /\ UNCHANGED <<evars, hdrb, hdrh, sp, ask, ivars, nev, nhs, phase>>
   /\ Finish(Act("FltEnd", "ok", 0, 0, 0))
 
 CanSyncFlt ==
@@ -354,7 +417,7 @@ SyncFlt ==
           /\ UNCHANGED <<ps, bn>>
   /\ sp' = IF sp # 0 /\ ps'[sp] # "up" THEN BestCand(ps') ELSE sp
   /\ ask' = {p \in ask : ps'[p] = "up"}
-  /\ UNCHANGED <<br, hb, long, kind, lk, pv, hdrb, hdrh, cfq, dead, nev, phase>>
+  /\ UNCHANGED <<br, hb, long, kind, lk, pv, hdrb, hdrh, cfq, dead, ivars, nev, nhs, phase>>
   /\ Finish(Act("SyncFlt", "ok", 0, 0, 0))
 
 \* the repaired behaviour only: false filter headers in the store are noticed
@@ -364,7 +427,7 @@ CanReverify == Alive /\ FixFHReverify /\ ffalse # 0 /\ HonestUp /\ cfq = NoQ
 Reverify ==
   /\ CanReverify
   /\ flt' = ffalse - 1 /\ ffalse' = 0
-  /\ UNCHANGED <<evars, hdrb, hdrh, cfq, dead, sp, ask, nev, phase>>
+  /\ UNCHANGED <<evars, hdrb, hdrh, cfq, dead, sp, ask, ivars, nev, nhs, phase>>
   /\ Finish(Act("Reverify", "ok", 0, 0, 0))
 
 CanReconnect(p) == Alive /\ ps[p] = "down" /\ ~bn[p]
@@ -373,7 +436,7 @@ Reconnect(p) ==
   /\ CanReconnect(p)
   /\ ps' = [ps EXCEPT ![p] = "up"]
   /\ LET r == NewPeerSP(p, ps') IN sp' = r[1] /\ ask' = r[2]
-  /\ UNCHANGED <<br, hb, long, kind, lk, pv, bn, hdrb, hdrh, flt, ffalse, cfq, dead, nev, phase>>
+  /\ UNCHANGED <<br, hb, long, kind, lk, pv, bn, hdrb, hdrh, flt, ffalse, cfq, dead, ivars, nev, nhs, phase>>
   /\ Finish(Act("Reconnect", "ok", p, 0, 0))
 
 \* peers the client bans: no compact-filter service bit; provable filter lies
@@ -387,7 +450,7 @@ Ban(p) ==
   /\ bn' = [bn EXCEPT ![p] = TRUE]
   /\ ps' = [ps EXCEPT ![p] = "down"]
   /\ LET r == DonePeerSP(p, ps') IN sp' = r[1] /\ ask' = r[2]
-  /\ UNCHANGED <<br, hb, long, kind, lk, pv, hdrb, hdrh, flt, ffalse, cfq, dead, nev, phase>>
+  /\ UNCHANGED <<br, hb, long, kind, lk, pv, hdrb, hdrh, flt, ffalse, cfq, dead, ivars, nev, nhs, phase>>
   /\ Finish(Act("Ban", "ok", p, 0, 0))
 
 \* nothing the client is obliged to do remains
@@ -395,18 +458,20 @@ Quiescent ==
   /\ \A p \in Peers : ~CanSyncHdr(p) /\ ~CanKick(p)
   /\ \A p \in Peers : kind[p] = "honest" => ~CanReconnect(p)
   /\ ~CanSyncFlt /\ ~CanFltBegin /\ ~CanReverify /\ cfq = NoQ
+  /\ pend = {}        \* (the environment delivers its announcements before the end)
 
 ConvergedM == ~dead /\ Converged(Obs)
 
 Deadline ==
   /\ phase = "settle" /\ (dead \/ Quiescent)
   /\ phase' = "done"
-  /\ UNCHANGED <<evars, cvars, nev>>
+  /\ UNCHANGED <<evars, cvars, ivars, nev, nhs>>
   /\ Finish(Act("Deadline", IF dead THEN "panic" ELSE IF ConvergedM THEN "converged" ELSE "timeout", 0, 0, 0))
 
 Next ==
-  \/ \E p \in Peers : Up(p) \/ Drop(p) \/ SyncHdr(p) \/ Kick(p) \/ Reconnect(p) \/ Ban(p)
-  \/ \E n \in 1..2 : Extend(n)
+  \/ \E p \in Peers : Up(p) \/ Drop(p) \/ SyncHdr(p) \/ Kick(p) \/ Reconnect(p) \/ Ban(p) \/ Inv(p)
+  \/ \E p \in Peers, st \in 1..4 : HsFail(p, st)
+  \/ \E n \in 1..2, q \in 0..NPeers : Extend(n, q)
   \/ \E d \in 1..2 : Reorg(d)
   \/ Settle \/ FltBegin \/ FltEnd \/ SyncFlt \/ Reverify \/ Deadline
 
@@ -415,7 +480,7 @@ TypeOK ==
   /\ hb \in 1..Len(br) /\ hdrb \in 1..Len(br)
   /\ flt \in 0..hdrh /\ hdrh \in 0..MaxH
   /\ ValidBlock(br, hdrb, hdrh)
-  /\ nev \in 0..MaxEv /\ phase \in {"run", "settle", "done"}
+  /\ nev \in 0..MaxEv /\ nhs \in 0..MaxHs /\ pend \subseteq Peers /\ req \in 0..NPeers /\ phase \in {"run", "settle", "done"}
   /\ \A p \in Peers : ps[p] \in {"new", "up", "down"}
 
 \* design-level safety: the abstraction never leaves the valid chains
@@ -430,6 +495,7 @@ Fairness ==
   /\ WF_vars(\E p \in Peers : SyncHdr(p))
   /\ WF_vars(\E p \in HonestPeers : Reconnect(p))
   /\ WF_vars(\E p \in Peers : Kick(p))
+  /\ WF_vars(\E p \in Peers : Inv(p))
   /\ WF_vars(SyncFlt) /\ WF_vars(FltEnd) /\ WF_vars(Reverify)
 LiveSpec == Init /\ [][Next]_vars /\ Fairness
 EventuallyConverged == <>[](ConvergedM)
